@@ -88,6 +88,7 @@ const char* vsim_workdir(void);       // per-run scratch directory
 void vsim_track_fd_faults(int on);    // short read/write faults on regular files opened from now on
 // captured stdout of this run (fd 1 is a memfd); returns bytes copied
 size_t vsim_read_stdout(char* buf, size_t cap);
+size_t vsim_read_stderr(char* buf, size_t cap);
 
 // ---- multi-host ------------------------------------------------------------
 // Fork `nhosts` simulated hosts; each runs hostmain(hostid) as a simulated
